@@ -19,6 +19,7 @@ type name2Value struct {
 	fieldName  string
 	cusMsg     string
 	reflectVal reflect.Value
+	scope      string // 分组范围(如: 切片中 map 的下标), 配合 objName 区分不同的对象
 }
 
 // validCommon 验证体抽象类
@@ -58,10 +59,12 @@ func (v *validCommon) initValid2FieldsMap(data *name2Value) {
 	if v.valid2FieldsMap == nil {
 		v.valid2FieldsMap = make(map[string][]*name2Value, 5)
 	}
-	if _, ok := v.valid2FieldsMap[data.validName]; !ok {
-		v.valid2FieldsMap[data.validName] = make([]*name2Value, 0, 2)
+	// 同一个对象内的才为一组, 不同的对象(切片的不同元素, 嵌套的对象, map 的不同 value)需要分开验证
+	key := data.scope + "|" + data.objName + "|" + data.validName
+	if _, ok := v.valid2FieldsMap[key]; !ok {
+		v.valid2FieldsMap[key] = make([]*name2Value, 0, 2)
 	}
-	v.valid2FieldsMap[data.validName] = append(v.valid2FieldsMap[data.validName], data)
+	v.valid2FieldsMap[key] = append(v.valid2FieldsMap[key], data)
 }
 
 // missRequired 规则里设置了 required 的 key, 但输入(map/url)里没有这个 key, 同样为必填错误
@@ -156,8 +159,8 @@ func (v *validCommon) valid(errBuf *strings.Builder) {
 		return
 	}
 
-	for validName, fieldInfos := range v.valid2FieldsMap {
-		validKey, _, _ := ParseValidNameKV(validName)
+	for _, fieldInfos := range v.valid2FieldsMap {
+		validKey, _, _ := ParseValidNameKV(fieldInfos[0].validName)
 		switch validKey {
 		case Either:
 			v.either(errBuf, fieldInfos)
